@@ -97,7 +97,12 @@ def shard(ctx):
                 continue
             k = rng.choice(list(srcs[a]))
             how = rng.random()
-            if how < 0.25:
+            if how < 0.12:
+                # one of the two sources gives the key the value null (a placeholder in a defaults file): still the same key twice
+                srcs[b][k] = srcs[a][k]
+                srcs[rng.choice([a, b])][k] = None
+                ctx.res.counts["overlap_with_null_value"] += 1
+            elif how < 0.25:
                 srcs[b][k] = srcs[a][k]
             elif how < 0.6:
                 srcs[b][k] = rng.choice(VALS)
